@@ -186,6 +186,10 @@ def main(argv):
     # the decision logic of functions.py is translated to Lean again from the tree under test; the tie theorems are
     # re-checked against it.  broken = the generated rule is no longer the one the property theorems speak about.
     try:
+        import fxpmath as _fx
+        if getattr(_fx, '_n_word_max', None) != 64:
+            # the translator reads `_n_word_max` as 64 (the value fxpmath/__init__.py detects on this platform)
+            print('INFRA: fxpmath._n_word_max is %r, the source tie assumes 64' % (getattr(_fx, '_n_word_max', None),)); return 2
         tie = srctie.check()
     except Exception as e:      # the translator itself failed: an infrastructure problem, never a verdict
         print('INFRA: source tie could not be evaluated: %r' % (e,)); return 2
